@@ -121,3 +121,23 @@ def clear_trace_caches():
         Frame._content_cache.clear()
     except Exception:
         pass
+
+
+def crash_site(exc):
+    """Signature fragment for an exception that escaped the renderer: class + the (up to two) innermost functions of
+    ui/components/exception_trace.py on the stack, e.g. 'ValueError@_render_exception>_render_line'.  This names the
+    rendering step that failed plus the first two words of the
+    exception text; it is the same for the ANSI and the plain formatter (report.exc_site would name the
+    formatter method instead and split one defect into several signatures).  Falls back to report.exc_site."""
+    from mc import report
+    names = []
+    tb = exc.__traceback__
+    while tb is not None:
+        fn = tb.tb_frame.f_code.co_filename
+        if fn.endswith(os.path.join("ui", "components", "exception_trace.py")):
+            names.append(tb.tb_frame.f_code.co_name)
+        tb = tb.tb_next
+    slug = "-".join(re.findall(r"[A-Za-z0-9]+", str(exc))[:2]).lower()
+    if not names:
+        return report.exc_site(exc)
+    return "%s@%s:%s" % (type(exc).__name__, ">".join(names[-2:]), slug)
